@@ -215,6 +215,7 @@ def gen_indep(rng, i):
 
 
 def chk_indep(inp, c):
+    c.relayout = False      # bit-level comparison of two runs: both must see the same memory layout
     f, s, dom, trapz = inp["filters"], inp["signals"], inp["domain"], inp["trapz"]
     _cells(c, inp)
     c.cell("independence")
@@ -362,6 +363,7 @@ def gen_est(rng, i):
 
 
 def chk_est(inp, c):
+    c.relayout = False      # bit-level comparison of two runs: both must see the same memory layout
     f, s, dom = inp["filters"], inp["signals"], inp["domain"]
     k = inp["dkind"]
     c.cell("estimator.capture", "domain=" + ("scalar" if k == "scalar" else "uniform" if k == "uniform" else
